@@ -965,3 +965,15 @@ package control
 //@   ensures result1 == nil ==> len(result0) == len(matches)
 //@   loop 1
 //@     invariant len(compiled) == $idx
+
+// C04 (which program is compiled for traffic): the routing section's rules and fallback go through alias
+// rewriting, geodata expansion, merge-and-sort and de-duplication, in that order, and the program that comes
+// out is the one the matcher is built from.
+//@ func newControlPlaneWithContextOptions
+//@   anchorsonly
+//@   nonilcheck
+//@   dyncalls noeffect
+//@   modifies *
+//@   at call NewNormalizedProgram#1 assert a0 == routingA.Rules && a1 == routingA.Fallback
+//@   at call NewNormalizedProgram#1 assert len(a2) == 4 && typeis(a2[0], "*routing.AliasOptimizer") && typeis(a2[1], "*routing.DatReaderOptimizer") && typeis(a2[2], "*routing.MergeAndSortRulesOptimizer") && typeis(a2[3], "*routing.DeduplicateParamsOptimizer")
+//@   at call NewRoutingMatcherBuilderFromProgram#1 assert a1 == routingProgram && a2 == outboundName2Id
